@@ -14,6 +14,7 @@ From V.lib Require Import Base.
 From V.c13 Require Import C13Model.
 From V.c15 Require Import C15Model.
 From V.c16 Require Import C16SeiProofs C16ParseModel C16ParseProofs C16ParseErProofs C16ParseSimProofs.
+From V.c16 Require Import C16SeiNaluModel C16SeiNaluProofs.
 
 (* every scaling list has at most 64 entries *)
 Definition scaling_sizes (l : list (option (list Z))) : Prop :=
@@ -66,6 +67,23 @@ Theorem C16_avc_GetSliceTypeFromNALU_total : forall data : list N,
   get_slice_type data = Err \/ exists t, get_slice_type data = Ok t /\ t <= 4.
 Proof. exact get_slice_type_total. Qed.
 Print Assumptions C16_avc_GetSliceTypeFromNALU_total.
+
+(* avc.ParseSEINalu(nalu, sps) / hevc.ParseSEINalu(nalu, sps): header accesses partial, extraction, one
+   decoder per message as sei.DecodeSEIMessage / the picture-timing special case choose it.  For EVERY
+   NAL unit and EVERY context value derived from the SPS (a fortiori every SPS: avc_pt_of_sps; for HEVC
+   every HEVCPicTimingParams value): a value or an error, at most |nalu|/2 messages.
+   (n, true) = the messages are returned together with ErrRbspTrailingBitsMissing. *)
+Theorem C16_avc_ParseSEINalu_total : forall (ctx : avc_pt_ctx) (nalu : list N),
+  avc_parse_sei_nalu ctx nalu = Err \/
+  exists n miss, avc_parse_sei_nalu ctx nalu = Ok (n, miss) /\ 2 * n <= lenN nalu.
+Proof. exact avc_parse_sei_nalu_total. Qed.
+Print Assumptions C16_avc_ParseSEINalu_total.
+
+Theorem C16_hevc_ParseSEINalu_total : forall (ctx : option C16Model.hpt_params) (nalu : list N),
+  hevc_parse_sei_nalu ctx nalu = Err \/
+  exists n miss, hevc_parse_sei_nalu ctx nalu = Ok (n, miss) /\ 2 * n <= lenN nalu.
+Proof. exact hevc_parse_sei_nalu_total. Qed.
+Print Assumptions C16_hevc_ParseSEINalu_total.
 
 (* the loop lemmas behind it: from every reachable reader state (rok: sticky error or well-formed) with
    potential mu_er s (= unread bits + 1, 0 after the error), fuel > potential is never exhausted, the
@@ -143,6 +161,16 @@ Example ex_sps_hostile_count :
 Proof. vm_compute. reflexivity. Qed.
 
 Example ex_slice_type_short : get_slice_type [] = Err /\ get_slice_type [101] = Err /\ get_slice_type [101; 136] = Ok 2.
+Proof. vm_compute. repeat split. Qed.
+
+(* F8 witnesses (empty unit, one-byte HEVC unit) and a unit with two messages, one of them pic timing
+   decoded with the HRD lengths of the SPS context *)
+Example ex_sei_nalu :
+  avc_parse_sei_nalu None [] = Err /\ hevc_parse_sei_nalu None [78] = Err /\
+  avc_parse_sei_nalu (Some (None, 0)) [6; 1; 1; 16; 5; 2; 10; 11; 128] = Err /\
+  avc_parse_sei_nalu (Some (None, 0)) [6; 1; 1; 16; 6; 2; 10; 11; 128] = Ok (2, false) /\
+  avc_parse_sei_nalu (avc_pt_of_sps (match c16_parse_sps true ex_sps with Ok s => Some s | _ => None end))
+                     [6; 1; 1; 16; 128] = Ok (1, false).
 Proof. vm_compute. repeat split. Qed.
 
 Example ex_slice_no_pps : c16_parse_slice (fun _ => None) (fun _ => None) [101; 136; 132; 0] = Err.
